@@ -598,6 +598,10 @@ class _NumpyIdioms(ast.NodeTransformer):
                 if node.args and isinstance(node.args[0], ast.Tuple):
                     node.args = list(node.args[0].elts)
                 return node
+        if isinstance(f, ast.Attribute) and f.attr in ("any", "all") and not self._is_np(f, f.attr) and not node.args and not node.keywords \
+                and not isinstance(f.value, ast.Compare):
+            # x.any() / x.all() on an array -> np.any(x) / np.all(x)
+            return ast.copy_location(ast.Call(self._np(f.attr), [f.value], []), node)
         if isinstance(f, ast.Attribute) and f.attr == "dot" and not self._is_np(f, "dot") and len(node.args) == 1 and nokw:
             return ast.copy_location(ast.Call(self._np("dot"), [f.value, node.args[0]], []), node)
         if isinstance(f, ast.Attribute) and f.attr == "mean" and not self._is_np(f, "mean") and not isinstance(f.value, ast.Name) or \
@@ -696,6 +700,15 @@ class _Literals(ast.NodeTransformer):
 
     def visit_Compare(self, node):
         self.generic_visit(node)
+        # chained comparison `a <= x <= b` with a pure middle operand -> `a <= x and x <= b`
+        if len(node.ops) == 2 and (_pure_chain(node.comparators[0]) or isinstance(node.comparators[0], ast.Constant)
+                                   or (isinstance(node.comparators[0], ast.Call) and isinstance(node.comparators[0].func, ast.Name)
+                                       and node.comparators[0].func.id == "len" and len(node.comparators[0].args) == 1
+                                       and _pure_chain(node.comparators[0].args[0]))):
+            import copy as _c
+            mid = node.comparators[0]
+            return ast.copy_location(ast.BoolOp(ast.And(), [ast.Compare(node.left, [node.ops[0]], [mid]),
+                                                            ast.Compare(_c.deepcopy(mid), [node.ops[1]], [node.comparators[1]])]), node)
         # `K in (x, y)` with a constant K and a literal tuple/list -> `x == K or y == K`
         if len(node.ops) == 1 and isinstance(node.ops[0], (ast.In, ast.NotIn)) and isinstance(node.left, ast.Constant) \
                 and isinstance(node.comparators[0], (ast.Tuple, ast.List)) and 1 <= len(node.comparators[0].elts) <= 4 \
